@@ -140,7 +140,9 @@ func (its *WiredDatatype) checkOptionAndError(ppp *model.PushPullPack) errors.Or
 		} else {
 			panic("Not implemented yet")
 		}
-	} else if ppp.GetPushPullPackOption().HasSubscribeBit() {
+	} else if ppp.GetPushPullPackOption().HasSubscribeBit() && its.state != model.StateOfDatatype_SUBSCRIBED {
+		// (a subscribe response that arrives when the datatype is already subscribed is a stale duplicate;
+		// it must not reset the datatype, and its operations are excluded as duplicates below)
 		modelOp := ppp.GetOperations()[0]
 		_, ok := operations.ModelToOperation(modelOp).(*operations.SnapshotOperation)
 		if !ok {
